@@ -92,3 +92,28 @@ CHECKS = {
         determinism="call-driven engine: exact replay",
     ),
 }
+
+
+# --- entries contributed by engine directories (sim/<engine>/ENTRY.py, inpkg/<pkg>/ENTRY_<prop>.py) ---
+# Only engines that were reviewed and registered are listed here.
+ENABLED_ENTRIES = [
+    "sim/paysim/ENTRY.py",
+]
+
+
+def _load_entries():
+    import os
+    base = os.path.dirname(os.path.abspath(__file__))
+    out = []
+    for path in [os.path.join(base, p) for p in ENABLED_ENTRIES]:
+        ns = {}
+        with open(path) as f:
+            exec(compile(f.read(), path, "exec"), ns)
+        out.append(ns)
+    return out
+
+
+ENTRY_MODULES = _load_entries()
+for _ns in ENTRY_MODULES:
+    for _k, _v in (_ns.get("CHECK") or {}).items():
+        CHECKS[_k] = _v
